@@ -13,9 +13,16 @@ while true; do
     touch "$d/.evaluating"
     id=$(basename $(dirname "$d"))
     /verif/tools/eval_seed.sh "$d" "$SLOT" "$id" > /dev/null 2>&1
-    if ! grep -q "^check $id rc=1" "$d/eval.txt"; then
+    if ! grep -q "^check $id rc=1" "$d/eval.txt" && ! grep -q "^demo_on_mutant_rc=0" "$d/eval.txt" && grep -q "^patch_applies=yes" "$d/eval.txt"; then
       cp "$d/eval.txt" "$d/eval_own.txt"
-      others=$(for i in $(seq -w 1 20); do [ "C$i" != "$id" ] && echo -n "C$i "; done)
+      # the own check missed it: try the checks of the neighbouring properties
+      case $id in
+        C01) others="C06 C07 C17 C20 C10";; C02) others="C04 C18 C03";; C03) others="C04 C05 C07";; C04) others="C03 C05 C18 C02";;
+        C05) others="C03 C06 C20 C15";; C06) others="C01 C07 C05";; C07) others="C03 C08 C11 C01";; C08) others="C01 C07 C17";;
+        C09) others="C12 C01";; C10) others="C01 C06 C17";; C11) others="C12 C16 C01";; C12) others="C11 C09";;
+        C13) others="C03 C18 C14";; C14) others="C13 C03 C15";; C15) others="C19 C20 C05";; C16) others="C01 C11 C08";;
+        C17) others="C01 C10 C08";; C18) others="C04 C13 C02 C01";; C19) others="C15 C20";; C20) others="C05 C15 C01";;
+      esac
       /verif/tools/eval_seed.sh "$d" "$SLOT" $others > /dev/null 2>&1
       cat "$d/eval_own.txt" >> "$d/eval.txt"
     fi
